@@ -96,7 +96,8 @@ Value& OpMULExpression::value(Context& ctx) const
       {
         if (a2.isNull() || a1.isNull())
           return LVAL2(Value(Value::type_integer), a1, a2);
-        Value val(Integer(*a1.integer() * *a2.integer()));
+        /* wrap modulo 2^64: signed overflow is undefined */
+        Value val(Integer(uint64_t(*a1.integer()) * uint64_t(*a2.integer())));
         return LVAL2(val, a1, a2);
       }
       case Type::IMAGINARY:
